@@ -224,7 +224,42 @@ def _check_normalisers(ctx: Ctx) -> None:
     ctx.instance('C09.c', q)
     problems = []
     loops = [n for n in walk_no_nested(fn.node) if isinstance(n, ast.For)]
-    if len(loops) != 1 or norm(loops[0].iter).replace(' ', '') not in ('range(0,self.num_users)', 'range(self.num_users)'):
+    if not loops:
+        # comprehension form: m = max([0] + [||block_u||_F for u in range(num_users)])
+        from ..astutil import expander
+        ex = expander(fn)
+        mxs = [n for n in walk_no_nested(fn.node) if isinstance(n, ast.Assign) and isinstance(n.targets[0], ast.Name)
+               and isinstance(n.value, ast.Call) and norm(n.value.func) in ('max', 'np.max', 'np.amax')]
+        ok_form = False
+        if len(mxs) == 1:
+            arg = ex(mxs[0].value.args[0]) if mxs[0].value.args else None
+            comps = [c for c in ast.walk(arg) if isinstance(c, (ast.ListComp, ast.GeneratorExp))] if arg is not None else []
+            if len(comps) == 1 and len(comps[0].generators) == 1 and not comps[0].generators[0].ifs \
+                    and norm(comps[0].generators[0].iter).replace(' ', '') in ('range(0,self.num_users)', 'range(self.num_users)'):
+                e_ = comps[0].elt
+                if isinstance(e_, ast.Call) and norm(e_.func) == 'np.linalg.norm' and len(e_.args) >= 2 and isinstance(e_.args[1], ast.Constant) \
+                        and e_.args[1].value == 'fro':
+                    ok_form = True
+        if not ok_form:
+            ctx.error('C09.c: %s takes its maximum neither in a loop over range(num_users) nor as max over a comprehension of Frobenius '
+                      'norms over range(num_users) (cannot tell)' % q)
+        mx = mxs[0].targets[0].id
+        rets = [n for n in walk_no_nested(fn.node) if isinstance(n, ast.Return)]
+        try:
+            from ..astutil import stmts_in_order
+            base = [n for n in stmts_in_order(fn) if isinstance(n, ast.Assign) and rets and norm(n.targets[0]) == norm(rets[0].value)]
+            env = T.Env(M, fn)
+            gt = T.from_ast(base[-1].value if base else rets[0].value, env)
+            # the scaled quantity is X * sqrt(iPu) / max for some X
+            sg = gt.single()
+            exps = {a: e for a, e in sg[0]} if sg is not None else {}
+            ok_scale = sg is not None and sg[1] == 1 and exps.get(('sym', mx)) == -1 and exps.get(('sym', 'self.iPu')) == T.Fraction(1, 2) \
+                and len(exps) == 3
+            if not ok_scale:
+                problems.append('the precoder is scaled by `%s`, not by sqrt(iPu)/max' % gt.pretty()[:60])
+        except (T.Unknown, IndexError) as e:
+            ctx.error('C09.c: %s: scaling not recognised (%s): cannot tell' % (q, e))
+    elif len(loops) != 1 or norm(loops[0].iter).replace(' ', '') not in ('range(0,self.num_users)', 'range(self.num_users)'):
         problems.append('the maximum is not taken over range(num_users)')
     else:
         l = loops[0]
@@ -285,9 +320,14 @@ def _check_normalisers(ctx: Ctx) -> None:
         else:
             try:
                 env = T.Env(M, fn)
+                # norms and blocks stay symbols; everything derived from them in the loop body is followed sequentially
+                keep = {nn for nn, nv in lloc.items() if (isinstance(nv, ast.Call) and norm(nv.func) == 'np.linalg.norm') or isinstance(nv, ast.Subscript)}
+                body_stmts = [x for x in l.body if not (isinstance(x, ast.Assign) and isinstance(x.targets[0], ast.Name) and x.targets[0].id in keep)]
+                env = T.block_env(M, fn, [x for x in body_stmts if x is not st[0]], env)
                 val = T.from_ast(st[0].value, env)
                 # expected: B * sqrt(iPu) / ||B||_F for the same block B
-                names = [x.id for x in ast.walk(st[0].value) if isinstance(x, ast.Name) and x.id in lloc]
+                names = [x.id for x in ast.walk(st[0].value) if isinstance(x, ast.Name) and x.id in lloc] + \
+                    [a[1] for a in T.atoms_of(val) if a[0] == 'sym' and a[1] in lloc]
                 okv = False
                 for b in set(names):
                     for nn, nv in lloc.items():
